@@ -62,6 +62,7 @@ PROPS = {
         stages=[
             ('errsim', 'A', 300000, 60, 6000000, 900, {}),
             ('errsim', 'D', 40000, 40, 1000000, 600, {}),
+            ('ctxsim', 'A', 320, 150, 30000, 1500, {}),
         ]),
 }
 
